@@ -318,6 +318,50 @@ Theorem C09_async_alias_refuted :
 Proof. exact async_alias_refuted. Qed.
 Print Assumptions C09_async_alias_refuted.
 
+(* ---------- (round 5) what several requests share on the way to a connection ---------- *)
+
+(* pool keys: a socket tied to one origin (direct, socks5, CONNECT tunnel through an http/https
+   proxy) is filed under a key only requests for that origin look up *)
+Theorem C09_cm_key_separates_tunnels : forall a b,
+  cm_key a = cm_key b -> socket_bound_to_target a = true -> cm_target a = cm_target b.
+Proof. exact cm_key_separates_tunnels. Qed.
+Print Assumptions C09_cm_key_separates_tunnels.
+
+Theorem C09_cm_key_shares_only_proxy_sockets : forall a b,
+  cm_key a = cm_key b -> cm_target a <> cm_target b ->
+  socket_bound_to_target a = false /\ socket_bound_to_target b = false.
+Proof. exact cm_key_shares_only_proxy_sockets. Qed.
+Print Assumptions C09_cm_key_shares_only_proxy_sockets.
+
+Theorem C09_cm_key_shared_refuted :
+  let a := mkCM PHttp 1 true 10 true in let b := mkCM PHttp 1 true 20 true in
+  cm_key_shared a = cm_key_shared b /\ socket_bound_to_target a = true /\ cm_target a <> cm_target b /\
+  cm_key a <> cm_key b.
+Proof. exact cm_key_shared_refuted. Qed.
+Print Assumptions C09_cm_key_shared_refuted.
+
+(* a shared HTTP/2 dial: the context error of the request that started it fails that request
+   only; a request that joined goes back to the scan and dials for itself *)
+Theorem C09_waiter_survives_owner_context : forall s r k cl e,
+  r_phase s r = RWaitDial k cl -> call_res s cl = Some None ->
+  e = DErrCanceled \/ e = DErrDeadline ->
+  r_phase (h2_step s (H2Wake r (should_retry_dial false e true))) r = RScan k.
+Proof. exact waiter_survives_owner_context. Qed.
+Print Assumptions C09_waiter_survives_owner_context.
+
+Theorem C09_dial_error_goes_to_its_owner : forall s r k cl e done,
+  r_phase s r = RWaitDial k cl -> call_res s cl = Some None -> e <> DErrNone ->
+  r_phase (h2_step s (H2Wake r (should_retry_dial true e done))) r = RDone false /\
+  r_phase (h2_step s (H2Wake r (should_retry_dial false DErrOther done))) r = RDone false.
+Proof. exact dial_error_goes_to_its_owner. Qed.
+Print Assumptions C09_dial_error_goes_to_its_owner.
+
+Theorem C09_retry_without_deadline_refuted : forall s r k cl,
+  r_phase s r = RWaitDial k cl -> call_res s cl = Some None ->
+  r_phase (h2_step s (H2Wake r (should_retry_dial_no_deadline false DErrDeadline true))) r = RDone false.
+Proof. exact retry_without_deadline_refuted. Qed.
+Print Assumptions C09_retry_without_deadline_refuted.
+
 (* non-vacuity of the HTTP/2 and HTTP/3 machines: two requests share one dialled connection with
    stream ids 1 and 3, a third id is 5 after the first finished; the HTTP/3 client is closed by
    CloseIdleConnections only after its request finished *)
